@@ -874,7 +874,7 @@ pub fn run(mut ctx: Ctx) -> ! {
         Part::new(
             "schedules",
             "0..=12 (thorough 16) inputs with generated arrival gaps through 1-3 FIFO harness processors (per-item process suspension none/yield/sleep, next delay, FIFO hold until later inputs were seen, process/next error items) as single layer, stacked layers or composed pipeline, channel or iter source, consumer with generated poll windows (elapsed window = cancelled next) and pauses, all under the paused clock; non-trivial = a processor's `next` future was cancelled while an item was inside the chain (and the case is not excluded by an open finding)",
-            150_000,
+            300_000,
             5_000_000,
         )
         .min_nontrivial(0.3)
